@@ -394,3 +394,45 @@ def share_sum_blocks(B, env, S, direction):
         return f
 
     return blocks_from(B, env, cell(0, 0), cell(0, 1), cell(1, 0), cell(1, 1))
+
+
+# ---- C14 scale statistics ---------------------------------------------------------------
+
+
+def scale_blocks(B, env, cc, values, orientation, what):
+    """respondent-level statistics of the opposing dimension's numeric values per vector:
+    'mean'  = sum_D v c / sum_D c
+    'sd'    = sqrt( sum_D c (v - mean)^2 / sum_D c )        (population standard deviation)
+    D = categories with a numeric value.  Vectors: base rows then row subtotals (orientation
+    'rows'), base columns then column subtotals ('columns').  A difference subtotal has no
+    base in its own direction: NaN."""
+    rows, cols = env.rows, env.cols
+    cnt_b = count_blocks(B, env, cc)
+    rd = B.rd
+    if orientation == "rows":
+        n_opp = env.C
+        vec_blocks = [(env.R, lambda i, j: rd(cnt_b[0][0], i, j), lambda i: False),
+                      (rows.S, lambda s, j: rd(cnt_b[1][0], s, j), lambda s: rows.is_diff(s))]
+    else:
+        n_opp = env.R
+        vec_blocks = [(env.C, lambda j, i: rd(cnt_b[0][0], i, j), lambda j: False),
+                      (cols.S, lambda t, i: rd(cnt_b[0][1], i, t), lambda t: cols.is_diff(t))]
+
+    def has_value(k):
+        return B.bnot(B.isnan(rd(values, k)))
+
+    out = []
+    for n_vec, c, isdiff in vec_blocks:
+        def stat(x, c=c, isdiff=isdiff):
+            den = B.Sum(n_opp, lambda k: B.ite(has_value(k), c(x, k), 0.0))
+            num = B.Sum(n_opp, lambda k: B.ite(has_value(k), rd(values, k) * c(x, k), 0.0))
+            mean = num / den
+            if what == "mean":
+                r = mean
+            else:
+                ss = B.Sum(n_opp, lambda k: B.ite(has_value(k), c(x, k) * (rd(values, k) - mean) * (rd(values, k) - mean), 0.0))
+                r = B.sqrt(ss / den)
+            return B.ite(isdiff(x), B.NaN(), r)
+
+        out.append(B.spec_tensor((n_vec,), stat))
+    return out
